@@ -378,8 +378,9 @@ PROPS["C18"] = dict(
                "all run concurrently. Ground truth: every iface.Read/Write the interpreter issued per attempt and the attempt's outcome told by the control flow alone. Checked: one event per "
                "attempt in order with isAbort; elements = .pc read + performed ops + .pc write, names/indices/values (Equal and printed); old-value hints; replay of committed local writes "
                "reproduces logged local reads; own clock component = attempt ordinal; write-time stamp of the writer <= reader's clock <= causal upper bound; ~1/6 of cases through the real file recorder.",
-    level_note="Every written value is a unique token, which identifies its writer. Whether a reader must also dominate what the writer learnt after its write in the same section is not asserted; "
-               "it is measured (classes reads.writer-learnt-more-after-the-write, restricted.*). Procedure calls (.stack) and Stop mid-section are not exercised. The process is started with "
+    level_note="Every written value is a unique token, which identifies its writer. Whether a reader must also dominate what the writer learnt after its write in the same section is asserted for Go-channel hops "
+               "(OutputChan stamps what it publishes at Commit with the committing attempt's clock; 0 shortfalls in 469 such reads on the unchanged tree) and only measured for shared variables "
+               "and TCP mailboxes, which ship the clock as of the write (classes reads.writer-learnt-more-after-the-write.via.*, reads.restricted.via.*). Procedure calls (.stack) and Stop mid-section are not exercised. The process is started with "
                "PGO_TRACE_DIR because causal wrapping is decided at package init.",
     rule="Relay: >=3 archetypes, a middle one has an attempt that aborted after reading another archetype's value, and some writer read something after a write to a link in the same section; "
          "Single: an aborted attempt with >=1 write and a later chained write to the same local (or function key) in that attempt; distinct by rendered programs.",
